@@ -15,7 +15,7 @@ from common import Case, Failure, flist, parse_flist, clist, parse_clist, call, 
 PID = 'C11'
 LEAN_TARGETS = ['Nitime.Props.C11']
 RULE = ('cases from one PRNG state: covariance sequences estimated from coloured multichannel data (N 64..512, thorough ..4096) '
-        'or exact covariances of drawn stable VAR processes; nc 1..6, P 1..8; channel permutations; fit_model with fixed order 0..5 '
+        'or exact covariances of drawn stable VAR processes; nc 1..6, P 1..8; channel permutations; covariance scales 1e-12..1e4; fit_model with fixed order 0..5 '
         'and BIC/AIC-selected order (max_order 10); generate_mar with a fixed numpy seed; distinct = distinct protocol line; '
         'block-Toeplitz systems with cond > 1e6 are skipped and counted')
 ASSUMPTIONS = ['real-valued data (lwr_recursion allocates real coefficient arrays)',
@@ -336,7 +336,8 @@ def judge(m, impl, clause):
         for t in range(len(mar)):
             pred = nz[t] - sum(a[j].dot(mar[t - j - 1]) for j in range(min(t, len(a))))
             worst = max(worst, np.abs(pred - mar[t]).max())
-XX, 'X(t) + sum a(i) X(t-i) - E(t) = %.3g' % worst)
+        if worst > 1e-9 * max(np.abs(mar).max(), np.abs(nz).max(), 1e-300):
+            return fail('recursion', 'X(t) + sum a(i) X(t-i) - E(t) = %.3g' % worst)
         return None
     return None
 
